@@ -4,13 +4,13 @@ use crate::__verif_c15_chan::chan;
 fn nd<T: kani::Arbitrary>() -> T { kani::any() }
 fn pad_stub<'a>(_f: &mut core::fmt::Formatter<'a>, _s: &str) -> core::fmt::Result where 'a: 'a { Ok(()) }
 
-static WRITES: AtomicUsize = AtomicUsize::new(0);
-static FLUSHES: AtomicUsize = AtomicUsize::new(0);
-static ORDER_OK: AtomicUsize = AtomicUsize::new(1);
-static LAST_FIRST: AtomicUsize = AtomicUsize::new(usize::MAX);
-static LAST_LEN: AtomicUsize = AtomicUsize::new(0);
-static FAIL_AT: AtomicUsize = AtomicUsize::new(usize::MAX);
-static WRITES_AFTER_FLUSH: AtomicUsize = AtomicUsize::new(0);
+vstatic!(WRITES: AtomicUsize = AtomicUsize::new(0));
+vstatic!(FLUSHES: AtomicUsize = AtomicUsize::new(0));
+vstatic!(ORDER_OK: AtomicUsize = AtomicUsize::new(1));
+vstatic!(LAST_FIRST: AtomicUsize = AtomicUsize::new(usize::MAX));
+vstatic!(LAST_LEN: AtomicUsize = AtomicUsize::new(0));
+vstatic!(FAIL_AT: AtomicUsize = AtomicUsize::new(usize::MAX));
+vstatic!(WRITES_AFTER_FLUSH: AtomicUsize = AtomicUsize::new(0));
 struct W;
 impl Write for W {
     fn write(&mut self, b: &[u8]) -> io::Result<usize> {
@@ -55,21 +55,13 @@ fn c15_handle_recv_and_try_recv() {
         let want = if kind == 1 { WorkerState::Shutdown } else if kind == 2 && !blocking { WorkerState::Empty } else { WorkerState::Disconnected };
         assert!(st.ok() == Some(want), "C15.handle.state_matches_message");
     }
-    assert!(FLUSHES.load(SeqCst) == 0, "C15.handle.never_flushes");
 }
 
-// TIER: thorough
-// NOTE: 614 s measured; the quick tier keeps the per-message contracts (handle_recv / handle_try_recv)
-// BOUND: receive script of at most 3 entries (Line / Shutdown / Empty / Disconnected in any order), one write failure position
-#[kani::proof]
-#[kani::unwind(8)]
-#[kani::stub(core::fmt::Formatter::pad, pad_stub)]
-#[kani::stub(crossbeam_channel::Receiver::recv, chan::recv_stub)]
-#[kani::stub(crossbeam_channel::Receiver::try_recv, chan::try_recv_stub)]
-fn c15_work_drains_in_order_then_flushes_bounded() {
+macro_rules! work_body { ($n:expr) => {{
     let mut w = worker();
-    let s3: [u8; 3] = nd();
-    let script: [u8; 4] = [s3[0], s3[1], s3[2], 3];   // a 4th receive, if any, reports Disconnected
+    let sn: [u8; 3] = nd();
+    // entries beyond the bound report Disconnected
+    let script: [u8; 4] = [sn[0], if $n >= 2 { sn[1] } else { 3 }, if $n >= 3 { sn[2] } else { 3 }, 3];
     let mut i = 0; while i < 4 { kani::assume(script[i] < 4); chan::SCRIPT[i].store(script[i] as usize, SeqCst); i += 1; }
     kani::assume(script[0] != 2);                      // the blocking recv cannot report Empty
     let fail_at: usize = nd(); kani::assume(fail_at <= 4); FAIL_AT.store(if fail_at == 4 { usize::MAX } else { fail_at }, SeqCst);
@@ -85,9 +77,25 @@ fn c15_work_drains_in_order_then_flushes_bounded() {
         assert!(r.is_err() && FLUSHES.load(SeqCst) == 0, "C15.work.write_error_returns_err_having_consumed_only_that_line");
         assert!(chan::POS.load(SeqCst) == fail_at + 1, "C15.work.nothing_received_past_the_failed_line");
     } else {
-        assert!(FLUSHES.load(SeqCst) == 1, "C15.work.flushes_exactly_once_on_a_normal_exit");
+        assert!(FLUSHES.load(SeqCst) == 1, "C15.work.flushes_exactly_once_on_every_normal_exit");
         let stop = if lines < 4 { script[lines] } else { 3 };
         let want = match stop { 1 => WorkerState::Shutdown, 2 => WorkerState::Empty, _ => WorkerState::Disconnected };
         assert!(r.ok() == Some(want), "C15.work.returns_why_it_stopped");
     }
-}
+}}; }
+// BOUND: receive script of at most 2 entries (Line / Shutdown / Empty / Disconnected in any order), one write failure position
+#[kani::proof]
+#[kani::unwind(8)]
+#[kani::stub(core::fmt::Formatter::pad, pad_stub)]
+#[kani::stub(crossbeam_channel::Receiver::recv, chan::recv_stub)]
+#[kani::stub(crossbeam_channel::Receiver::try_recv, chan::try_recv_stub)]
+fn c15_work_drains_in_order_then_flushes_bounded() { work_body!(2) }
+// TIER: thorough
+// NOTE: 614 s measured
+// BOUND: receive script of at most 3 entries
+#[kani::proof]
+#[kani::unwind(8)]
+#[kani::stub(core::fmt::Formatter::pad, pad_stub)]
+#[kani::stub(crossbeam_channel::Receiver::recv, chan::recv_stub)]
+#[kani::stub(crossbeam_channel::Receiver::try_recv, chan::try_recv_stub)]
+fn c15_work_drains_script3_bounded() { work_body!(3) }
